@@ -55,7 +55,9 @@ impl Mode {
 }
 
 /// Alphabet of paging-state byte strings. `state(kind, i)` is what the mock returns with page i-1 (i >= 1) and
-/// expects in the request for page i; all states of one run are pairwise distinct.
+/// expects in the request for page i. For most kinds the states of one run are pairwise distinct and the mock finds the
+/// page by the bytes; where states repeat (`Const`, `SamePrev*`) the mock keeps a server-side cursor (next page not
+/// yet answered) and serves, among the pages whose state matches, the one the cursor points at.
 #[derive(Clone, Copy, Debug, PartialEq, Eq, PartialOrd, Ord, Hash)]
 pub enum PsKind {
     /// one byte: [i]
@@ -72,9 +74,16 @@ pub enum PsKind {
     Empty1,
     /// the state returned with the second page is zero-length; others [i]
     Empty2,
+    /// the SAME bytes are returned with every page (the state is a constant cursor handle; the server keeps the
+    /// position itself)
+    Const,
+    /// the state returned with the second page equals the one returned with the first; others [i]
+    SamePrev1,
+    /// the state returned with the third page equals the one returned with the second; others [i]
+    SamePrev2,
 }
 impl PsKind {
-    pub const ALL: [PsKind; 7] = [PsKind::OneByte, PsKind::Zero, PsKind::Ff, PsKind::Long, PsKind::Mixed, PsKind::Empty1, PsKind::Empty2];
+    pub const ALL: [PsKind; 10] = [PsKind::OneByte, PsKind::Zero, PsKind::Ff, PsKind::Long, PsKind::Mixed, PsKind::Empty1, PsKind::Empty2, PsKind::Const, PsKind::SamePrev1, PsKind::SamePrev2];
     pub fn name(self) -> &'static str {
         match self {
             PsKind::OneByte => "one-byte",
@@ -84,6 +93,9 @@ impl PsKind {
             PsKind::Mixed => "mixed",
             PsKind::Empty1 => "empty-at-1",
             PsKind::Empty2 => "empty-at-2",
+            PsKind::Const => "constant",
+            PsKind::SamePrev1 => "same-as-previous-at-2",
+            PsKind::SamePrev2 => "same-as-previous-at-3",
         }
     }
     pub fn from_name(s: &str) -> Option<PsKind> {
@@ -97,6 +109,9 @@ impl PsKind {
             PsKind::Long => (0..300usize).map(|j| if j == 0 { i as u8 } else { (j * 7 + i) as u8 }).collect(),
             PsKind::Empty1 => if i == 1 { Vec::new() } else { vec![i as u8] },
             PsKind::Empty2 => if i == 2 { Vec::new() } else { vec![i as u8] },
+            PsKind::Const => vec![0xC5; 4],
+            PsKind::SamePrev1 => if i == 2 { vec![1] } else { vec![i as u8] },
+            PsKind::SamePrev2 => if i == 3 { vec![2] } else { vec![i as u8] },
             PsKind::Mixed => {
                 let k = [PsKind::OneByte, PsKind::Zero, PsKind::Ff, PsKind::Long][i % 4];
                 // keep mixed states distinct from each other: lengths / first bytes differ per i within each kind
@@ -195,6 +210,10 @@ pub struct Case {
     pub consumer: Consumer,
     /// nodes of the mock cluster (2 or 3; 3 unless stated)
     pub nodes: usize,
+    /// prepared pager only: `use_cached_result_metadata(true)` (the driver asks the server to skip result metadata)
+    pub cached_metadata: bool,
+    /// the server attaches result metadata to this page although skipping was requested
+    pub metadata_anyway_on: Option<usize>,
 }
 impl Case {
     pub fn json(&self) -> Value {
@@ -206,6 +225,8 @@ impl Case {
             "faults": self.faults.iter().map(|(p, f)| json!([p, f.name()])).collect::<Vec<_>>(),
             "consumer": self.consumer.json(),
             "nodes": self.nodes,
+            "cached_metadata": self.cached_metadata,
+            "metadata_anyway_on": self.metadata_anyway_on,
         })
     }
     pub fn from_json(v: &Value) -> Option<Case> {
@@ -217,6 +238,8 @@ impl Case {
             faults: v["faults"].as_array()?.iter().filter_map(|x| Some((x[0].as_u64()? as usize, Fault::from_name(x[1].as_str()?)?))).collect(),
             consumer: Consumer::from_json(&v["consumer"])?,
             nodes: v["nodes"].as_u64().map(|n| n as usize).unwrap_or(NODES).clamp(1, NODES),
+            cached_metadata: v["cached_metadata"].as_bool().unwrap_or(false),
+            metadata_anyway_on: v["metadata_anyway_on"].as_u64().map(|n| n as usize),
         })
     }
     pub fn rows(&self) -> usize {
@@ -383,6 +406,11 @@ struct RunScript {
     cap: usize,
     capped: bool,
     unknown_state: Option<Vec<u8>>,
+    /// next page not yet answered (server-side position; used only where paging states repeat)
+    cursor: usize,
+    /// request seq -> page the mock resolved it to (None: a state the server never returned)
+    resolved: HashMap<u64, Option<usize>>,
+    metadata_anyway_on: Option<usize>,
 }
 #[derive(Default)]
 struct Shared {
@@ -413,25 +441,37 @@ fn script_reply(shared: &Arc<Mutex<Shared>>, ctx: &mockcluster::ReqCtx) -> Reply
     let Shared { runs, held } = &mut *g;
     let Some(rs) = runs.get_mut(&run) else { return Reply::error(ErrorBody::invalid("c07: unknown run")) };
     rs.requests += 1;
+    let resolved: Option<usize> = match &params.paging_state {
+        None => Some(0),
+        Some(b) => {
+            let cands: Vec<usize> = (1..rs.states.len()).filter(|i| rs.states[*i] == *b).collect();
+            if cands.contains(&rs.cursor) { Some(rs.cursor) } else { cands.first().copied() }
+        }
+    };
+    rs.resolved.insert(ctx.entry.seq, resolved);
     if rs.requests > rs.cap {
         rs.capped = true;
         return Reply::error(ErrorBody::invalid("c07: request cap reached (runaway pager)"));
     }
-    let page = match &params.paging_state {
-        None => 0,
-        Some(b) => match rs.states.iter().skip(1).position(|s| s == b) {
-            Some(i) => i + 1,
-            None => {
-                rs.unknown_state = Some(b.clone());
-                return Reply::error(ErrorBody::invalid("c07: unknown paging state"));
-            }
-        },
+    let Some(page) = resolved else {
+        rs.unknown_state = params.paging_state.clone();
+        return Reply::error(ErrorBody::invalid("c07: unknown paging state"));
     };
     let rows: Vec<Vec<mockcluster::wire::Cell>> = rs.pages[page].iter().map(|i| vec![val::int(run), val::int(*i)]).collect();
     let next = if page + 1 < rs.pages.len() { Some(rs.states[page + 1].clone()) } else { None };
-    let normal = Response::rows_paged(result_cols(), rows, next);
+    let mut normal = Response::rows_paged(result_cols(), rows, next);
+    if rs.metadata_anyway_on == Some(page) {
+        // the server sends the result metadata although the request asked to skip it
+        if let Response::Rows(r) = &mut normal {
+            r.honor_skip_metadata = false;
+        }
+    }
     let cl = params.consistency;
-    match rs.faults[page].pop_front() {
+    let fault = rs.faults[page].pop_front();
+    if matches!(fault, None | Some(Fault::Delay)) {
+        rs.cursor = page + 1;
+    }
+    match fault {
         None => Reply::response(normal),
         Some(Fault::ReadTimeout) => Reply::error(ErrorBody::read_timeout(cl, 1, 1, false)),
         Some(Fault::Unavailable) => Reply::error(ErrorBody::unavailable(cl, 2, 1)),
@@ -445,6 +485,12 @@ fn script_reply(shared: &Arc<Mutex<Shared>>, ctx: &mockcluster::ReqCtx) -> Reply
             None => Reply::error(ErrorBody::invalid("c07: UNPREPARED scripted for an unprepared statement")),
         },
         Some(Fault::Reset) => {
+            // measure the frame as it will be written: the mock drops the metadata when the request asked for it
+            if let Response::Rows(r) = &mut normal {
+                if r.honor_skip_metadata && params.skip_metadata {
+                    r.metadata.no_metadata = true;
+                }
+            }
             let env: mockcluster::wire::Envelope = normal.into();
             let len = env.encode_frame(ctx.stream).len();
             let body = len - mockcluster::wire::HEADER_LEN;
@@ -617,12 +663,15 @@ impl World {
                     cap: 3 * pages + 2 * case.faults.len() + 8,
                     capped: false,
                     unknown_state: None,
+                    cursor: 0,
+                    resolved: HashMap::new(),
+                    metadata_anyway_on: case.metadata_anyway_on,
                 },
             );
         }
         let from = self.cluster.log_len();
         let progress = Arc::new(Progress::default());
-        let consumer = tokio::spawn(consume(self.session.clone(), self.cluster.clone(), self.prepared.clone(), case.clone(), exp.clone(), run, from, progress.clone()));
+        let consumer = tokio::spawn(consume(self.session.clone(), self.cluster.clone(), self.shared.clone(), self.prepared.clone(), case.clone(), exp.clone(), run, from, progress.clone()));
         let mk = |key: &str, text: String| Complaint { key: format!("{}:{}", case.mode.name(), key), text, case: case.json() };
         let mut complaints: Vec<Complaint> = Vec::new();
         let mut obs = Observed::default();
@@ -765,6 +814,11 @@ impl World {
         let mut bad_state: Option<Vec<u8>> = None;
         for e in &frames {
             let f = e.frame().unwrap();
+            if !self.is_resolved(run, e) {
+                // logged, but the mock has not answered it yet (an in-flight request of a just-dropped stream):
+                // nothing delivered so far can depend on it; the deferred judgement of the drop sees it
+                continue;
+            }
             let st = match cqlref::proto::parse_request_body(if f.opcode == Opcode::Query { 0x07 } else { 0x0A }, &f.body, false) {
                 Ok(cqlref::proto::Request::Query { params, .. }) | Ok(cqlref::proto::Request::Execute { params, .. }) => params.paging_state,
                 other => return Err(format!("cqlref cannot parse a page request the mock accepted: {other:?}")),
@@ -778,7 +832,9 @@ impl World {
                 Some(b) => {
                     obs.states_checked += 1;
                     obs.max_state_len = obs.max_state_len.max(b.len());
-                    match (1..pages).find(|i| case.ps.state(*i) == *b) {
+                    // the page the mock resolved the request to: a page whose state has exactly these bytes (where
+                    // states repeat: the one its cursor pointed at)
+                    match self.page_of(run, e).map(|p| p as usize).filter(|i| *i < pages && case.ps.state(*i) == *b) {
                         Some(i) => seen_pages.push(i),
                         None => {
                             bad_state.get_or_insert(b.clone());
@@ -834,13 +890,14 @@ impl World {
 
 
     fn page_of(&self, run: i32, e: &LogEntry) -> Option<u64> {
-        let f = e.frame()?;
+        e.frame()?;
         let g = self.shared.lock().unwrap();
         let rs = g.runs.get(&run)?;
-        match &f.request.params()?.paging_state {
-            None => Some(0),
-            Some(b) => rs.states.iter().skip(1).position(|s| s == b).map(|i| i as u64 + 1),
-        }
+        rs.resolved.get(&e.seq).copied().flatten().map(|p| p as u64)
+    }
+
+    fn is_resolved(&self, run: i32, e: &LogEntry) -> bool {
+        self.shared.lock().unwrap().runs.get(&run).map(|rs| rs.resolved.contains_key(&e.seq)).unwrap_or(false)
     }
 
     /// The page requests of a run with what the mock answered: `n<node>/c<conn> page<p> -> <reply>`.
@@ -969,7 +1026,7 @@ fn classify_error(e: &str) -> &'static str {
 }
 
 #[allow(clippy::too_many_arguments)]
-async fn consume(session: Arc<Session>, cluster: MockCluster, prepared: PreparedStatement, case: Case, exp: Expect, run: i32, from: u64, progress: Arc<Progress>) -> Result<(), String> {
+async fn consume(session: Arc<Session>, cluster: MockCluster, shared: Arc<Mutex<Shared>>, prepared: PreparedStatement, case: Case, exp: Expect, run: i32, from: u64, progress: Arc<Progress>) -> Result<(), String> {
     let pager = match case.mode {
         Mode::Unprepared => {
             let mut st = Statement::new(format!("{STMT_PREFIX}{run}"));
@@ -979,6 +1036,7 @@ async fn consume(session: Arc<Session>, cluster: MockCluster, prepared: Prepared
         Mode::Prepared => {
             let mut p = prepared.clone();
             p.set_is_idempotent(case.idempotent);
+            p.set_use_cached_result_metadata(case.cached_metadata);
             session.execute_iter(p, (run,)).await
         }
     };
@@ -1017,7 +1075,6 @@ async fn consume(session: Arc<Session>, cluster: MockCluster, prepared: Prepared
             let j = exp.page_holding(got);
             let target = (j + 2).min(exp.stop_page);
             let want_attempts = exp.attempts(target);
-            let state: Option<Vec<u8>> = if target == 0 { None } else { Some(case.ps.state(target)) };
             let answered = exp.error.map(|(p, _)| p != target).unwrap_or(true);
             progress.update(|s| {
                 s.paused = true;
@@ -1026,14 +1083,12 @@ async fn consume(session: Arc<Session>, cluster: MockCluster, prepared: Prepared
             let what = format!("the mock to see {want_attempts} request(s) for page {target} while the consumer does not poll");
             let r = cluster
                 .wait_for(&what, PAUSE_DEADLINE, |log| {
-                    let mine: Vec<&Arc<LogEntry>> = log
-                        .iter()
-                        .skip(from as usize)
-                        .filter(|e| match e.frame() {
-                            Some(f) if matches!(f.opcode, Opcode::Query | Opcode::Execute) => f.request.params().map(|p| run_of(f.statement.as_deref(), &p.values) == Some(run) && p.paging_state == state).unwrap_or(false),
-                            _ => false,
-                        })
-                        .collect();
+                    // requests the mock has resolved to the target page (paging states may repeat: ask the script)
+                    let resolved_to_target: HashSet<u64> = match shared.lock().unwrap().runs.get(&run) {
+                        Some(rs) => rs.resolved.iter().filter(|(_, p)| **p == Some(target)).map(|(s, _)| *s).collect(),
+                        None => HashSet::new(),
+                    };
+                    let mine: Vec<&Arc<LogEntry>> = log.iter().skip(from as usize).filter(|e| resolved_to_target.contains(&e.seq)).collect();
                     if mine.len() < want_attempts {
                         return None;
                     }
@@ -1202,6 +1257,9 @@ pub fn dimension_counts(cases: &[Case]) -> BTreeMap<String, u64> {
         bump(format!("cases_rows_{}", c.rows()));
         bump(format!("cases_faults_{}", c.faults.len()));
         bump(format!("cases_nodes_{}", c.nodes));
+        if c.cached_metadata {
+            bump(if c.metadata_anyway_on.is_some() { "cases_cached_metadata_server_attaches_metadata_anyway".into() } else { "cases_cached_metadata".into() });
+        }
         for (_, f) in &c.faults {
             bump(format!("faults_{}", f.name()));
         }
